@@ -6,6 +6,9 @@ Prints a markdown table."""
 import json, os, subprocess, sys, glob
 
 ROOT = "/verif"
+# a change in one property's mechanism that is decided by another property's check (C06 uses the library's test() as its
+# oracle; what test() means is C13's business)
+ALSO = {"C06-3": ["C13"]}
 
 def sh(cmd, **kw):
     return subprocess.run(cmd, shell=True, stdout=subprocess.PIPE, stderr=subprocess.STDOUT, text=True, **kw)
@@ -30,7 +33,7 @@ def main():
             # the tree moved on (later repairs touched the same lines): try a three-way apply
             a = sh("git -C /repo apply --3way %s/patch.diff" % d)
         if a.returncode != 0:
-            sh("git -C /repo checkout -- . ; git -C /repo reset -q")
+            sh("git -C /repo reset -q --hard")
             meta["caught_by"] = {"status": "patch no longer applies to the current tree", "detail": a.stdout[-300:]}
             rows.append((sid, meta["summary"], "patch no longer applies", ""))
         else:
@@ -39,7 +42,13 @@ def main():
             if not sigs:
                 rc, sigs, verdict = run_check(prop, "thorough")
                 tier = "thorough"
-            sh("git -C /repo reset -q; git -C /repo checkout -- .")
+            if not sigs:
+                for other in ALSO.get(sid, []):
+                    rc, sigs, verdict = run_check(other, "quick")
+                    if sigs:
+                        prop, tier = other, "quick"
+                        break
+            sh("git -C /repo reset -q --hard")
             meta["caught_by"] = {"check": prop, "tier": tier, "exit": rc, "violations": len(sigs), "first_signatures": sigs[:4],
                                  "command": "git -C /repo apply seeded/%s/patch.diff; ./check %s --tier %s; git -C /repo checkout -- ." % (sid, prop, tier)}
             rows.append((sid, meta["summary"], ("%s %s: %d signatures" % (prop, tier, len(sigs))) if sigs else "NOT CAUGHT", "; ".join(sigs[:2])))
